@@ -294,14 +294,24 @@ struct StressLock {
   dispenso::RWLock* a = nullptr;
   Holder* h = nullptr;
   explicit StressLock(int flavour) : fl(flavour) {
+    // (C++14 operator new ignores extended alignment)
+    void* mem = nullptr;
+    if (posix_memalign(&mem, 64, fl == 0 ? sizeof(dispenso::RWLock) : sizeof(Holder)) != 0)
+      _exit(2);
     if (fl == 0)
-      a = new dispenso::RWLock();
+      a = new (mem) dispenso::RWLock();
     else
-      h = new Holder();
+      h = new (mem) Holder();
   }
   ~StressLock() {
-    delete a;
-    delete h;
+    if (a) {
+      a->~RWLock();
+      free(a);
+    }
+    if (h) {
+      h->~Holder();
+      free(h);
+    }
   }
   const char* name() const {
     return fl == 0 ? "RWLock" : "UnalignedRWLock";
